@@ -237,6 +237,7 @@ class Interp:
         self._opaque_n = 0
         self.each_ctx: list[str] = []
         self.attr_env: dict[str, Value] = {}
+        self.loop_locals: list[set[str]] = []
 
     # ----------------------------------------------------------------- text
     def text(self, expr: ast.AST) -> str:
@@ -477,11 +478,16 @@ class Interp:
         if f is None:
             f = "?" + text
         self.trace.append(getattr(node, "lineno", 0))
-        return evalf(self._prefix_formula(f), self.v)
+        return evalf(self._prefix_formula(f, text), self.v)
 
-    def _prefix_formula(self, f: Any) -> Any:
+    def _prefix_formula(self, f: Any, text: Optional[str] = None) -> Any:
         if not self.prefix:
             return f
+        if text is not None and self.loop_locals:
+            import re as _re
+
+            if not (set(_re.findall(r"[A-Za-z_]\w*", text)) & set().union(*self.loop_locals)):
+                return f  # loop-invariant condition: same atom as outside the loop
         if isinstance(f, bool):
             return f
         if isinstance(f, str):
@@ -711,7 +717,7 @@ class Interp:
         self.ev(st.iter)
         self.loop_depth += 1
         tgt = ast.unparse(st.target)
-        label = f"each {tgt} in {it_text}" if len(it_text) <= 48 else f"each {tgt}"
+        label = f"each {tgt} in {ast.unparse(st.iter)}"
         fn = getattr(self.hooks, "loop_label", None)
         if fn is not None:
             label = fn(st, it_text, self) or label
@@ -724,6 +730,7 @@ class Interp:
         saved_prefix = self.prefix
         self.prefix = f"{self.prefix}{label}::"
         self.each_ctx.append(label)
+        self.loop_locals.append(self._names_in(st.target) | carried)
         for n in ast.walk(st.target):
             if isinstance(n, ast.Name):
                 self.env[n.id] = Sym(n.id)
@@ -736,12 +743,14 @@ class Interp:
             outcome = "break"
         except (_Return, _Raise, _Exit) as ctl:
             self.each_ctx.pop()
+            self.loop_locals.pop()
             self.prefix = saved_prefix
             self.loop_depth -= 1
             ctl.in_loop = label  # type: ignore[attr-defined]
             raise
         self.emit(("element-end", outcome))
         self.each_ctx.pop()
+        self.loop_locals.pop()
         self.prefix = saved_prefix
         self.loop_depth -= 1
         for name in carried:
